@@ -66,6 +66,43 @@ def _case_variants(k):
     return out
 
 
+def rule_regex(model, f):
+    """the regex of a t_ rule: its docstring, or the argument of PLY's @TOKEN decorator folded to a string"""
+    for d in f.node.decorator_list:
+        if isinstance(d, ast.Call) and ast.unparse(d.func).split(".")[-1] == "TOKEN" and len(d.args) == 1:
+            v = _fold_str(f.module, d.args[0], 0)
+            if v is None:
+                raise AnalysisError(f"lexer rule {f.id}: the @TOKEN argument is not a constant string expression")
+            return v
+    return ast.get_docstring(f.node, clean=False)
+
+
+def _fold_str(module, n, depth):
+    if depth > 8:
+        return None
+    if isinstance(n, ast.Constant) and isinstance(n.value, str):
+        return n.value
+    if isinstance(n, ast.BinOp) and isinstance(n.op, ast.Add):
+        a, b = _fold_str(module, n.left, depth + 1), _fold_str(module, n.right, depth + 1)
+        return None if a is None or b is None else a + b
+    if isinstance(n, ast.JoinedStr):
+        out = ""
+        for v in n.values:
+            if isinstance(v, ast.Constant):
+                out += str(v.value)
+            elif isinstance(v, ast.FormattedValue) and v.format_spec is None and v.conversion == -1:
+                x = _fold_str(module, v.value, depth + 1)
+                if x is None:
+                    return None
+                out += x
+            else:
+                return None
+        return out
+    if isinstance(n, ast.Name) and n.id in module.assigns:
+        return _fold_str(module, module.assigns[n.id], depth + 1)
+    return None
+
+
 # ---------------------------------------------------------------------------
 # the lexer model
 # ---------------------------------------------------------------------------
@@ -92,7 +129,7 @@ class LexModel:
         self.rules = []
         for name, f in self.methods.items():
             if name.startswith("t_") and name not in ("t_error", "t_ignore"):
-                doc = ast.get_docstring(f.node, clean=False)
+                doc = rule_regex(model, f)
                 if doc is None:
                     raise AnalysisError(f"lexer rule {f.id} has no regex docstring")
                 self.rules.append((f.firstline, name, doc, f))
